@@ -341,9 +341,11 @@ PROPS['C12'] = dict(
                'mutex / condition-variable / create / join / exit call is a scheduling point. Per configuration (1-5 workers x 2-7 trial steps, i.e. 1-7 blocks, incl. more workers than steps) '
                'all schedules with at most 1 (quick) / 2 (thorough) preemptions and 2/3 deviations at blocking points are enumerated breadth-first, plus random-walk and PCT-style priority schedules with '
                'injected spurious wake-ups. Deadlock is decided (no enabled thread), protocol errors (unlock by non-owner, wait without mutex, destroy with waiters, exit holding a mutex) are assertions, '
-               'and every schedule must return x, H1, residual and the return value bit-identical to the single-worker run. Real-thread passes under ThreadSanitizer and helgrind with injected delays complement it.',
+               'and every schedule must return x, H1, residual and the return value bit-identical to the single-worker run. Real-thread passes under ThreadSanitizer and helgrind with injected delays complement it, and a production-build pass repeats real monotonic fits through splinetable::fit '
+               'with 1, 2, 3, 5, 8 and 32 workers (BLAS and OpenMP pinned to one thread) and compares the float coefficients bit for bit; a difference is attributed by intervention '
+               '(hook H4 fixes the worker count seen by modify_factor\'s cost model while the pool keeps its size) before it is keyed.',
     level_note=NOTE_COMMON + '; exhaustive only up to the stated preemption bound; OpenBLAS/CHOLMOD internals are single-threaded by configuration',
-    technique='controlled (systematic + randomized) scheduler over the real synchronisation code + TSan/helgrind with delay injection',
+    technique='controlled (systematic + randomized) scheduler over the real synchronisation code + TSan/helgrind with delay injection + differential monitor over worker counts on real fits (attribution by intervention through a hook)',
     targets=[T_SCHED, T_THR_TSAN, T_THR_PLAIN, T_THR_PROD],
     passes=c12_passes,
     level='exploration',
